@@ -48,6 +48,12 @@ CHECKS = {
     "C15": ("Lean 4 proof over transition-system models of the fan-out and the relay (all interleavings of the model) + source fact regenerated from fan.go + scripted and free-running runs of the real goroutines",
             "C15_source_facts (the broadcast send is selected against a per-output leaving signal), C15_despawn_blocks_unguarded (machine-checked witness of the repaired deadlock), C15_despawn_completes_on_wedge; further theorems (exactly-once invariant over all schedules, relay order) in HidiProofs/Props/C15.lean as listed in the evidence.",
             "Partial by nature: goroutine scheduling belongs to the Go runtime; conformance of the real goroutines to the model is sampled (scripts + stress runs with watchdogs), the theorems cover every interleaving of the model only."),
+    "C16": ("Lean 4 source facts + lock-discipline model; race-detector runs of the real goroutines (1-8 devices concurrently, LED loop against a fake OpenRGB server)",
+            "C16_source_facts (the disconnect clean-up runs under eventProcessMutex, regenerated from events.go) and the theorems listed in the evidence; the decision on the implementation: every ProcessEvents returns promptly, no goroutine is left, the race detector is silent, each device's output equals its output when run alone.",
+            "Partial by nature: schedules are sampled under the race detector; a peer that never answers TCP is not modelled."),
+    "C17": ("Lean 4 proof over the frame model (painting order, byte arithmetic, exact channel colours) + source facts + frames of the real LED loop captured by a fake OpenRGB server",
+            "C17_source_facts (checked frame writes; Note On velocity 0 = Note Off), C17_led_names_distinct and the frame theorems listed in the evidence; independent per-LED expectation from State(), the device's own MIDI output and the MIDI-input script evaluated on every captured frame.",
+            "Trusted/partial: go-colorful HSV round trip (class colours taken from the real shiftColor each run, measured ±1/255); frames sampled after quiescence; |12·octave+semitone| ≤ 127."),
     "C18": ("Lean 4 proof over a file-tree model + differential correspondence + real interrupted runs (RLIMIT_FSIZE, strace fault injection)",
             "C18_frame (user files untouched, any tree), C18_restores (factory files equal the template after a successful run), C18_blacklist_created; crash states of the model are replayed on the real function.",
             "Trusted: per-syscall behaviour of the filesystem; a crash inside write(2) is an arbitrary prefix; permissions not varied (root)."),
